@@ -191,6 +191,52 @@ def rule_every_heading(ctx, rep, toc, rh, sup, prh, cfg):
                      'judged by the same options: %s' % (what, levels, got, want), loc(unit, rh.node))
 
 
+def rule_document_fold(ctx, rep, toc, cfg):
+    """One entry per heading, in order, also when two headings have the same level and text: the TOC renderer's
+    render() is folded on a small document of token objects (headings "A", "Opt", "Opt", "B", "Opt" at levels
+    2 3 3 2 3, and a level-1 title), and the collected entries are read off the renderer afterwards."""
+    model = ctx.model
+    rule = 'R-TOC-ORDER'
+    rep.instance(rule)
+    hcls = model.cls('block_token.Heading')
+    dcls = model.cls('block_token.Document')
+    pcls = model.cls('block_token.Paragraph')
+    raw = model.cls('span_token.RawText')
+
+    def tok(c, **attrs):
+        o = Obj(c, dict(attrs))
+        for k in o.attrs.get('_children') or []:
+            k.attrs['_parent'] = o
+        return o
+    heads = [(1, 'Title'), (2, 'A'), (3, 'Opt'), (3, 'Opt'), (2, 'B'), (3, 'Opt')]
+    kids = []
+    for lv, text in heads:
+        kids.append(tok(hcls, level=lv, _children=[tok(raw, content=text)]))
+        kids.append(tok(pcls, _children=[tok(raw, content='text')]))
+    doc = tok(dcls, _children=kids, footnotes={})
+    hit = cfg.cls.lookup('render')
+    it = Interp(model, loop_bound=32)
+    it.reset_run(Oracle())
+    r = T.clone_renderer(cfg.obj)
+    if isinstance(r.attrs.get('_headings'), list):
+        r.attrs['_headings'] = []
+    try:
+        it.call_function(hit[1], [r, doc], {})
+        got = r.attrs.get('_headings')
+        got = [tuple(x) for x in got] if isinstance(got, list) and all(isinstance(x, (tuple, list)) for x in got) else repr(got)
+    except Raised as e:
+        got = 'raises %s' % e.exc.kind
+    omit = r.attrs.get('omit_title')
+    want = [(lv, text) for lv, text in heads if not (omit and lv == 1)]
+    ok = got == want
+    rep.obligation(rule, ok, {'document': heads, 'collected': got, 'expected': want})
+    if not ok:
+        rh = toc.lookup('render_heading')[1]
+        rep.find(rule, 'contrib.toc_renderer.TocRenderer', 'document-fold',
+                 'rendering a document whose headings are %s leaves the entries %s; one entry per qualifying heading, in order, is %s'
+                 % (heads, got, want), loc(model.unit_of(rh), rh.node), witness='## A\n### Opt\n### Opt\n## B\n### Opt\n')
+
+
 def rule_wired(ctx, rep, toc, collector):
     """One entry per heading, ATX and setext: in every TocRenderer configuration each heading token class
     is dispatched to the collecting method (or to a method that does nothing but forward to it through self)."""
@@ -315,6 +361,7 @@ def run(ctx):
                 rep.find('R-TOC-ORDER', rh.short, p.split(':')[0][:50], p, loc(unit, rh.node))
     rep.floor('R-TOC-FILTER', rep.rules['R-TOC-FILTER']['obligations'], 40)
     rule_every_heading(ctx, rep, toc, rh, sup, prh, cfg)
+    rule_document_fold(ctx, rep, toc, cfg)
     rule_wired(ctx, rep, toc, rh)
 
     # parse_rendered_heading removes tags: folded on one rendered heading of every shape the HTML renderer produces
